@@ -311,6 +311,109 @@ func (g *flowGen) stmt(c flowCtx, labels []string) {
 	}
 }
 
+// termTail appends a final statement that is terminating by construction of its outer shape, while its
+// inside is full of the things a terminating-statement analysis has to see through: breaks that leave
+// only a nested switch / select / loop, continues to the outer label, closures (with their own labels
+// and panics) between earlier panics and the end.
+func (g *flowGen) termTail(c flowCtx) {
+	g.feat("terminating-tail")
+	tailEnd := func() {
+		if g.chance("tailret", 1, 3) && g.results {
+			g.line("return x")
+		} else {
+			g.line("panic(\"t\")")
+		}
+	}
+	closure := func() {
+		if g.chance("tailclosure", 1, 2) {
+			g.feat("tail-closure")
+			save, saveSh := g.results, g.shadowed
+			g.results = false
+			g.line("func() {")
+			g.body(flowCtx{depth: c.depth + 1}, g.n("nclosure", 0, 3))
+			g.line("}()")
+			g.results, g.shadowed = save, saveSh
+		}
+	}
+	switch g.n("tailform", 0, 3) {
+	case 0, 1:
+		// L: for { ... } without any break that targets it
+		g.lblSeq++
+		l := fmt.Sprintf("T%d", g.lblSeq)
+		g.ind--
+		g.line("%s:", l)
+		g.ind++
+		g.feat("label")
+		g.feat("tail-labeled-forever")
+		c2 := c
+		c2.depth++
+		c2.inLoop, c2.inBreakable, c2.lastInCase = true, false, false
+		c2.loopLabels = append(append([]string{}, c.loopLabels...), l)
+		c2.breakLabels = nil
+		g.line("for {")
+		g.body(c2, g.n("nbody", 1, 3))
+		// one nested breakable construct with a plain break that leaves only itself
+		switch g.n("tailnest", 0, 2) {
+		case 0:
+			g.line("\tselect {")
+			g.line("\tcase <-ch:")
+			g.line("\t\tbreak")
+			g.line("\tdefault:")
+			g.line("\t\tcontinue %s", l)
+			g.line("\t}")
+		case 1:
+			g.line("\tswitch x {")
+			g.line("\tcase 1:")
+			g.line("\t\tbreak")
+			g.line("\tdefault:")
+			g.line("\t\tcontinue %s", l)
+			g.line("\t}")
+		default:
+			g.line("\tfor cond() {")
+			g.line("\t\tbreak")
+			g.line("\t}")
+		}
+		g.line("}")
+	case 2:
+		g.feat("tail-if-else")
+		g.line("if cond() {")
+		c2 := c
+		c2.depth++
+		c2.inBreakable, c2.inLoop, c2.breakLabels, c2.loopLabels = false, false, nil, nil
+		g.body(c2, g.n("nbody", 0, 2))
+		g.ind++
+		tailEnd()
+		g.ind--
+		g.line("} else {")
+		g.body(c2, g.n("nbody", 0, 2))
+		g.ind++
+		closure()
+		tailEnd()
+		g.ind--
+		g.line("}")
+	default:
+		g.feat("tail-switch")
+		g.line("switch x {")
+		c2 := c
+		c2.depth++
+		c2.inBreakable, c2.inLoop, c2.breakLabels, c2.loopLabels = false, false, nil, nil
+		for i := 0; i < g.n("ncases", 0, 2); i++ {
+			g.line("case %d:", i+1)
+			g.body(c2, g.n("nbody", 0, 2))
+			g.ind++
+			closure()
+			tailEnd()
+			g.ind--
+		}
+		g.line("default:")
+		g.ind++
+		closure()
+		tailEnd()
+		g.ind--
+		g.line("}")
+	}
+}
+
 // FlowProgram draws a program with one function built from the control-flow grammar.
 func FlowProgram(t *rapid.T) (src string, feats map[string]int) {
 	g := &flowGen{t: t, feats: map[string]int{}, pool: nil}
@@ -323,6 +426,9 @@ func FlowProgram(t *rapid.T) (src string, feats map[string]int) {
 		g.line("_ = panic")
 	}
 	g.block(flowCtx{}, g.n("nstmts", 1, 5))
+	if g.chance("tail", 1, 2) {
+		g.termTail(flowCtx{})
+	}
 	sig := "func f()"
 	if g.results {
 		sig = "func f() int"
